@@ -872,7 +872,9 @@ class FragmentSender(object):
         if not success and self.retry != RetryMode.NONE:
             # resend the fragment that timed out
             cbk = lambda success, idx=index: self.callback(idx, success)
-            self.conn._send_type(PacketType.APP_FRAGMENT, self.fragments[index], self.retry, cbk)
+            payload = struct.pack(">HHH", self.frag_id, 1 + index, len(self.fragments))
+            payload += self.fragments[index]
+            self.conn._send_type(PacketType.APP_FRAGMENT, payload, self.retry, cbk)
         else:
             self.acks[index] = success
 
